@@ -69,6 +69,28 @@ def compute_ctc3(mm):
     return compute_ctc(mm, fl_channel=3)
 
 
+def get_crosstalk_state(mm):
+    """Requirement function returning the crosstalk values in use
+
+    :func:`compute_ctc` uses every crosstalk matrix element that is
+    defined in the "calculation" configuration section, not only those
+    listed in `req_config` of the selected (two-channel) recipe. The
+    values are returned here, so that they become part of the hash
+    in :func:`AncillaryFeature.hash` and cached data are recomputed
+    when any of them is set, changed, or removed.
+    """
+    calccfg = mm.config["calculation"]
+    state = []
+    for i in [1, 2, 3]:
+        for j in [1, 2, 3]:
+            if i != j:
+                key = "crosstalk fl{}{}".format(i, j)
+                if key in calccfg:
+                    state.append((key, calccfg[key]))
+    # an empty list would be interpreted as "not available"
+    return state or True
+
+
 def get_method(fl_channel):
     if fl_channel == 1:
         return compute_ctc1
@@ -109,6 +131,7 @@ def register():
                          method=get_method(flch),
                          req_features=opts_all[0],
                          req_config=[["calculation", opts_all[1]]],
+                         req_func=get_crosstalk_state,
                          priority=1)
 
     for flch in [1, 2]:
@@ -116,6 +139,7 @@ def register():
                          method=get_method(flch),
                          req_features=opts_12[0],
                          req_config=[["calculation", opts_12[1]]],
+                         req_func=get_crosstalk_state,
                          priority=0)
 
     for flch in [1, 3]:
@@ -123,6 +147,7 @@ def register():
                          method=get_method(flch),
                          req_features=opts_13[0],
                          req_config=[["calculation", opts_13[1]]],
+                         req_func=get_crosstalk_state,
                          priority=0)
 
     for flch in [2, 3]:
@@ -130,4 +155,5 @@ def register():
                          method=get_method(flch),
                          req_features=opts_23[0],
                          req_config=[["calculation", opts_23[1]]],
+                         req_func=get_crosstalk_state,
                          priority=0)
